@@ -99,7 +99,15 @@ class LazyCall:
         if not self.extra:
             # nothing to split: follow the data batches, however many there are
             return itertools.repeat({})
-        return split_generator(self.extra, self.batch_size)
+        # an extra without any array (only empty containers) follows the
+        # data batches as well instead of stopping after MAX_ITER pieces
+        return data_generator(
+            self.extra,
+            fun=_data_split,
+            args=(self.batch_size,),
+            kwargs={"axis": 0},
+            MAX_ITER=sys.maxsize,
+        )
 
     def __iter__(self):
         assert self.batch_size is not None, ""
